@@ -422,7 +422,22 @@ def getitem_v(it, o, idx):
             lc = None if lo is None or isinstance(lo, SNoneT) else lo.concrete()
             hc = None if hi is None or isinstance(hi, SNoneT) else hi.concrete()
             if (lo is not None and not isinstance(lo, SNoneT) and lc is None) or (hi is not None and not isinstance(hi, SNoneT) and hc is None):
-                raise Unsupported("symbolic slice of list")
+                # symbolic bound on a concrete-length tuple/list: fork over the clamped position 0..len (exact)
+                def _fork_bound(b, bc, default):
+                    if b is None or isinstance(b, SNoneT):
+                        return default
+                    if bc is not None:
+                        return bc
+                    if not isinstance(b, (SInt, SBool, SEnum)):
+                        raise Unsupported("symbolic slice of list")
+                    nn = len(o.items)
+                    pos = norm_index(b, z3.IntVal(nn), z3.IntVal(default))
+                    for k in range(nn):
+                        if it.branch(SBool(pos == k)):
+                            return k
+                    return nn
+
+                lc, hc = _fork_bound(lo, lc, 0), _fork_bound(hi, hc, len(o.items))
             return type(o)(o.items[lc:hc])
         if isinstance(o, SSeq):
             return SSeq(simp(slice_term(o.t, lo, hi)), o.elem)
@@ -1169,6 +1184,9 @@ def f_len(it, x):
         m = it.find_method(x.cls, "__len__")
         if m is not None:
             return it.call_ifunc(m, [x], {})
+        bm = builtin_method_model(x.cls, "__len__")
+        if bm is not None:
+            return bm(it, x)
     raise Unsupported(f"len of {x!r}")
 
 
@@ -1503,6 +1521,15 @@ def f_any(it, xs):
 @function(next)
 def f_next(it, g, *default):
     g = it.resolve(g)
+    if isinstance(g, SObj):
+        m = it.find_method(g.cls, "__next__")
+        if m is not None:
+            try:
+                return it.call_ifunc(m, [g], {})
+            except I.PyExc as pe:
+                if default and issubclass(pe.exc.cls, StopIteration):
+                    return default[0]
+                raise
     items = it.iterate(g)
     if items:
         return items[0]
@@ -1764,9 +1791,33 @@ def model_struct_method(it, obj, name, args, kwargs):
 _orig_call_builtin_method = call_builtin_method
 
 
+BUILTIN_METHODS = {}  # (class, method name) -> fn(it, self_, *args, **kwargs): models of methods of builtin/C classes
+
+
+def builtin_method(cls, name):
+    def deco(fn):
+        BUILTIN_METHODS[(cls, name)] = fn
+        return fn
+
+    return deco
+
+
+def builtin_method_model(cls, name):
+    for k in cls.__mro__:
+        fn = BUILTIN_METHODS.get((k, name))
+        if fn is not None:
+            return fn
+    return None
+
+
 def call_builtin_method(it, self_, k, name, args, kwargs):  # noqa: F811
     if isinstance(self_, SObj) and self_.cls is struct.Struct:
         return model_struct_method(it, self_, name, args, kwargs)
+    if isinstance(self_, SObj):
+        fn = builtin_method_model(self_.cls, name)
+        if fn is not None:
+            it.ex.note("lib", f"{k.__name__}.{name}")
+            return fn(it, self_, *args, **kwargs)
     return _orig_call_builtin_method(it, self_, k, name, args, kwargs)
 
 
